@@ -1,5 +1,5 @@
 \* exhaustive: 4 L1 blocks, 3 events, 1 reorg, 1 failure, chunk size in {1,2,10}
-\* measured: 7 533 372 distinct / 28 367 937 generated states (11.5 min on 6 loaded workers)
+\* measured: 7 533 372 distinct / 28 367 937 generated states (3 min on 8 workers)
 \* (4 blocks / 4 events: > 25 M distinct states, 20 min - not affordable; larger bounds are sampled by trace validation)
 CONSTANTS
   MaxBlocks = 4
